@@ -99,9 +99,12 @@ def obs_record(idx, case):
            "tables": [], "machines": [], "conflict": []}
     if res["t"] == "ok":
         rec["verdict"] = "ok"
-        why = grammar.same_grammar(G, pres, r["grammar"])
+        # the grammar kiki extracted from the text (hook view of the validated file) against the declared one: a difference
+        # is reported as drift only - everything below is judged against the DECLARED grammar, which is what the
+        # properties speak about, so a front end that mangles the declarations shows up as wrong tables / verdicts
+        why = grammar.same_grammar(G, pres, r["grammar"]) if "grammar" in r else None
         if why:
-            raise ToolError("rendering is not faithful (%s):\n%s" % (why, case["src"]))
+            case["grammar_drift"] = why
         try:
             rec["tables"].append(grammar.extract_tables(res["rust"], pres["ts"], pres["nts"]))
         except grammar.MalformedTables as e:
@@ -280,18 +283,22 @@ def trace_lines(case_id, c, r):
     return lines
 
 
-def validate_traces(cases, wd, run, shards=6, tag="trace"):
-    """Records builder/table-fill events of the given cases from the real code and has TLC validate them against
-    Builder.tla / TableFill.tla (PipelineTrace). Returns a list of (case, rejected event) for rejected traces."""
-    reqs = [{"id": k, "src": c["src"], "want": ["buildev", "fillev", "machine", "table"]} for k, c in enumerate(cases)]
-    resps = common.kv("gen", reqs, timeout=1200)
-    per_case = []
-    for k, (c, r) in enumerate(zip(cases, resps)):
-        ls = trace_lines(k, c, r)
-        if ls is not None:
-            per_case.append((c, ls))
+def closure_lines(case_id, c, r):
+    """ND-JSON lines of every get_closure call of one grammar, in ClosureTrace.tla's vocabulary."""
+    evs = [e for e in r.get("events", []) if e["ev"] in ("cstart", "cskip", "cexpand", "cend")]
+    if not evs:
+        return None
+    G, pres = c["G"], c["pres"]
+    return [{"ev": "grammar", "id": case_id, "g": grammar.tla_grammar(dict(G, nts=pres["nts"], ts=pres["ts"]))}] + evs
+
+
+def _validate(module, per_case, wd, run, shards, tag):
+    """TLC validates the concatenated traces against `module`; returns [(case, rejected event, tlc error)]."""
+    out = {"rejected": [], "tlc": [], "traces": 0, "events": 0}
+    if not per_case:
+        return out
     shards = max(1, min(shards, len(per_case)))
-    rejected = []
+    rejected = out["rejected"]
     todo = [per_case[s::shards] for s in range(shards)]
 
     def one(args):
@@ -301,21 +308,19 @@ def validate_traces(cases, wd, run, shards=6, tag="trace"):
             for _, ls in part:
                 for ln in ls:
                     f.write(json.dumps(ln) + "\n")
-        return common.tlc("PipelineTrace", env={"TRACE": path}, workers=1, timeout=3000, deque=True, xmx="3g")
+        return common.tlc(module, env={"TRACE": path}, workers=1, timeout=3000, deque=True, xmx="3g")
     with cf.ThreadPoolExecutor(max_workers=shards) as ex:
         results = list(ex.map(one, list(enumerate(todo))))
-    nev = 0
     for part, r in zip(todo, results):
-        run.add_tlc(r)
+        out["tlc"].append(r)
         acc = r.tagged_raw("TRACE-ACCEPTED")
         rej = r.tagged_raw("TRACE-REJECTED")
-        n = sum(len(ls) for _, ls in part)
-        nev += n
+        out["events"] += sum(len(ls) for _, ls in part)
         if acc:
-            run.traces += len(part)
+            out["traces"] += len(part)
             continue
         if not rej:
-            raise ToolError("PipelineTrace neither accepted nor rejected:\n" + (r.error or r.out[-2000:]))
+            raise ToolError("%s neither accepted nor rejected:\n" % module + (r.error or r.out[-2000:]))
         # find the case containing the rejected line
         m = re.match(r'^<<"TRACE-REJECTED", (\d+), "(.*)">>$', rej[0])
         lineno = int(m.group(1))
@@ -325,9 +330,38 @@ def validate_traces(cases, wd, run, shards=6, tag="trace"):
                 rejected.append((c, ls[lineno - acc_lines - 1], r.error))
                 break
             acc_lines += len(ls)
-            run.traces += 1
-    run.notes["trace_events_validated"] = run.notes.get("trace_events_validated", 0) + nev
-    return rejected
+            out["traces"] += 1
+    return out
+
+
+def validate_traces(cases, wd, run, shards=6, tag="trace", closure=False):
+    """Records builder/table-fill events of the given cases from the real code and has TLC validate them against
+    Builder.tla / TableFill.tla / FirstSets.tla (PipelineTrace) and, with closure=True, every iteration of every
+    get_closure call against Closure.tla (ClosureTrace). Returns a list of (case, rejected event, error)."""
+    want = ["buildev", "fillev", "machine", "table"] + (["closev"] if closure else [])
+    reqs = [{"id": k, "src": c["src"], "want": want} for k, c in enumerate(cases)]
+    resps = common.kv("gen", reqs, timeout=1200)
+    per_case, per_case_cl = [], []
+    for k, (c, r) in enumerate(zip(cases, resps)):
+        ls = trace_lines(k, c, r)
+        if ls is not None:
+            per_case.append((c, ls))
+        if closure:
+            cl = closure_lines(k, c, r)
+            if cl is not None:
+                per_case_cl.append((c, cl))
+    with cf.ThreadPoolExecutor(max_workers=2) as ex:
+        a = ex.submit(_validate, "PipelineTrace", per_case, wd, run, shards, tag)
+        b = ex.submit(_validate, "ClosureTrace", per_case_cl, wd, run, max(1, shards // 2), tag + "_closure")
+        rejected = []
+        for key, res in (("trace_events_validated", a.result()), ("closure_events_validated", b.result())):
+            for r in res["tlc"]:
+                run.add_tlc(r)
+            run.traces += res["traces"]
+            if res["events"]:
+                run.notes[key] = run.notes.get(key, 0) + res["events"]
+            rejected += res["rejected"]
+        return rejected
 
 
 def replay_case(c, why, kind):
@@ -407,12 +441,16 @@ def check(prop, tier, seed):
     fixed = [c for c in pool if c["origin"] == "classics" or c["origin"].startswith("repo:")]
     rest = [c for c in pool if c not in fixed]
     sample = fixed + rng.sample(rest, min(len(rest), 400 if tier == "quick" else 4000))
-    rejected = validate_traces(sample, wd, run, shards=12)
+    rejected = validate_traces(sample, wd, run, shards=12, closure=(prop == "C17"))
     for c, ev, err in rejected:
         # diagnostic only (DESIGN.md section 7): the end states above decide the property
-        print("CONFORMANCE-DRIFT property=%s the real builder/table filler took a step Builder.tla/TableFill.tla do not allow: %s"
+        print("CONFORMANCE-DRIFT property=%s the real FIRST iteration / closure loop / builder / table filler took a step the specifications do not allow: %s"
               % (prop, json.dumps(ev)[:300]))
     run.notes["trace_drift"] = len(rejected)
+    drift = [c for c in cases if c.get("grammar_drift")]
+    for c in drift[:3]:
+        print("CONFORMANCE-DRIFT property=%s the grammar kiki extracted differs from the declared one (%s): %s" % (prop, c["grammar_drift"], json.dumps(c["src"])[:300]))
+    run.notes["grammar_drift"] = len(drift)
     log("  [%.0fs] traces validated" % (__import__("time").time() - t0))
     design.result()
     log("  [%.0fs] design-level models done" % (__import__("time").time() - t0))        # re-raises a ToolError of the background models
@@ -427,7 +465,8 @@ def design_level(prop, tier, run):
         return
     u = "U1" if tier == "quick" else "U2"
     if prop == "C17":
-        models = [("MC_FirstSets", "MC_FirstSets", u), ("MC_Builder", "MC_Builder", u), ("MC_Builder", "MC_BuilderFifo", u)]
+        models = [("MC_FirstSets", "MC_FirstSets", u), ("MC_Closure", "MC_Closure", u), ("MC_Closure", "MC_ClosureFifo", u),
+                  ("MC_Builder", "MC_Builder", u), ("MC_Builder", "MC_BuilderFifo", u)]
     else:
         models = [("MC_TableFill", "MC_TableFill", u)]
     for module, cfg, univ in models:
